@@ -559,6 +559,16 @@ func (up4 *UP4) clearDatapathState() error {
 	up4.initAllCounters()
 	up4.initMetersPools()
 
+	// meter cells configured by a previous incarnation would otherwise keep rate-limiting
+	// whoever is given the cell next: a write without index and config resets every cell
+	err = up4.p4client.ApplyMeterEntries(p4.Update_MODIFY,
+		&p4.MeterEntry{MeterId: p4constants.MeterPreQosPipeAppMeter},
+		&p4.MeterEntry{MeterId: p4constants.MeterPreQosPipeSessionMeter})
+	if err != nil {
+		logger.PfcpLog.Warnf("failed to reset meters: %v", err)
+		return err
+	}
+
 	err = up4.initInterfaces()
 	if err != nil {
 		return ErrOperationFailedWithReason("Interfaces initialization", err.Error())
